@@ -439,4 +439,35 @@ def e6_relink(F, R, M, pop_id, rule='E6'):
                 'the test guarding the free-list relink examines a stale cursor (defined at %s) instead of the link of the descriptor being '
                 'released: the tail of a recycled chain is not relinked to the old free list, so descriptors of chains still in flight can '
                 'be handed out again' % (site(sg, bad) if bad is not None else ''))
+    # every release path relinks: after the free-list head has been redirected to the released chain, every loop-free
+    # path to the return stores the *saved* old head into a released descriptor's link (loop paths: rule above)
+    fh_fields = set()
+    relinks = []
+    for n in sg.nodes:
+        if n.kind != 'assign' or not n.d['place']['p']:
+            continue
+        loc = S.place_loc(n.id, n.d['place'])
+        if loc[2] and loc[2][-1][0] == 'f' and loc[2][-1][1] == nextf and loc[2][-1][2] == M.desc_adt and M.is_shadow_loc(loc):
+            v = S.rvalue(n.id, n.d['rv'])
+            flds = [x[1][2][-1][1] for x in subterms(v) if x[0] in ('load', 'load0') and x[1][2] and x[1][2][-1][0] == 'f' and x[1][2][-1][2] == M.queue_adt]
+            if flds:
+                relinks.append(n.id)
+                fh_fields |= set(flds)
+    fh_stores = []
+    for n in sg.nodes:
+        if n.kind != 'assign' or not n.d['place']['p']:
+            continue
+        loc = S.place_loc(n.id, n.d['place'])
+        if loc[2] and loc[2][-1][0] == 'f' and loc[2][-1][2] == M.queue_adt and loc[2][-1][1] in fh_fields:
+            fh_stores.append((n, loc[2][-1][1]))
+    # only the chain-walking loop (the one containing a relink store) is left to the shape rule above
+    headers = set(h for h, body in loops if any(r_ in body for r_ in relinks))
+    for n, fld in fh_stores:
+        r = sg.reach_fwd(list(n.succ), avoid=set(relinks) | headers)
+        ex = [e for e in sg.exits if e in r]
+        R.check(not ex, rule, '%s:relink-on-every-release-path' % pop_id, site(sg, n),
+                'after `%s` is redirected to the released chain every loop-free path stores the saved old head into a released descriptor\'s link (%d relink stores)' % (fld, len(relinks)),
+                'a release path sets the free-list head `%s` to the released chain but never links that chain to the previous free list (no store of the saved head '
+                'into a released descriptor\'s `%s`): the free list then continues into whatever the stale link points at, so a descriptor of a chain still in flight '
+                'can be handed out again' % (fld, nextf))
     return found
